@@ -7,6 +7,10 @@ BASE = json.load(open("/root/.vp/BASELINE.json"))["cmd"] if Path("/root/.vp/BASE
     "cd /repo && /venv/bin/python -m pytest -ra -q -p no:cacheprovider --timeout=900 --continue-on-collection-errors --junitxml=<file>"
 
 CHECKS = {
+ "C15": dict(cat="fault_enumeration", ref="§C15",
+    tech="fault enumeration over generated valid documents (Hypothesis supplies models/instances; faults are enumerated: truncation at every offset, byte flips, per-element structural edits, per-value hostile replacements, xsi:type/nil corruption, prefix/root faults, appended/prepended junk, random bytes; JSON shape replacement/deletion/truncation/flips), with and without parser reuse; oracle = allowed outcome set + two-parser (libxml2, expat) malformedness agreement for the pure-Python handler",
+    text="Every enumerated single-point fault of every generated document must end in an instance of the requested class or in ParserError/ConverterError/XmlContextError/XmlHandlerError within the time bound, for the lxml handler, the pure-Python handler, JsonParser and DictDecoder; documents that libxml2 (strict) and expat both reject must be rejected by the pure-Python handler. Truncation is exhaustive per document; the other families are enumerated at a generated stride.",
+    note="The lxml handler uses recover=True by design and is not required to reject malformed input; documents above 2 KB are skipped; exception buckets are keyed by (route, exception type, innermost xsdata frame)."),
  "C10": dict(cat="exploration", ref="§C10",
     tech="property-based testing (Hypothesis): generated models x valid documents x injections (unknown elements with arbitrary subtrees, unknown attributes, xsi attributes, unconvertible values; unknown JSON keys and values) x the 8 fail_on_* combinations x both handlers / dict and JSON decoders; oracle = the documented truth table with the un-injected parse as reference",
     text="Generated search; for every injection the outcome must be exactly what the option combination prescribes: ParserError iff the matching fail_on_* option is on, otherwise an object structurally equal to the un-injected parse (or to the instance with the raw value kept, plus a ConverterWarning). Searched, not proved.",
